@@ -376,6 +376,7 @@ func (x *Exec) staticCall(fr *Frame, st *State, cc *ssa.CallCommon, callee *ssa.
 			}
 		}
 		rs := x.freshResults(st, sig)
+		x.libFacts(st, name, args, rs)
 		k(st, resultVal(rs, sig))
 		return
 	}
@@ -1364,6 +1365,16 @@ func (x *Exec) libFacts(st *State, name string, args, rs []Val) {
 			perr := x.uninterp(st, "lf_github_com_opencontainers_go_digest_Parse_1", []Val{{T: rs[0].T, Typ: types.Typ[types.String]}}, types.Universe.Lookup("error").Type())
 			st.assume(Eq(perr.T, NilIface))
 			x.funcsUsed["assume:go-digest: FromBytes/FromString return a digest that Parse accepts"] = true
+		}
+	case "encoding/json.Unmarshal":
+		// success means the whole input was one well-formed JSON document
+		// (trailing data is an error for Unmarshal, unlike Decoder.Decode)
+		if len(args) == 2 && len(rs) == 1 && x.te.StrSort == "String" && !x.te.ByteBV {
+			if as := x.bytesAsStrings(st, args[:1]); len(as) == 1 && as[0].T.Sort == "String" {
+				x.d.DeclareFun("jsonDoc", "(declare-fun jsonDoc (String) Bool)")
+				st.assume(Implies(Eq(rs[0].T, NilIface), Term{"(jsonDoc " + as[0].T.S + ")", "Bool"}))
+				x.funcsUsed["lib:encoding/json.Unmarshal succeeds only if its whole input is one well-formed JSON document (jsonDoc, otherwise unspecified)"] = true
+			}
 		}
 	case "(github.com/opencontainers/go-digest.Digest).Validate":
 		if len(args) == 1 && len(rs) == 1 && args[0].T.Sort == "String" {
